@@ -3,20 +3,53 @@ EXTENDS GrpcConn, Json
 
 G2 == {1, 2}
 G3 == {1, 2, 3}
-Cfgs == {[shared |-> s, k |-> k, refl |-> r] : s \in BOOLEAN, k \in {1, 2}, r \in BOOLEAN}
+Sec(c, t, tt, n, m) == c @@ [tls |-> t, ttls |-> tt, needmd |-> n, rmd |-> m]
+Plain(c) == Sec(c, FALSE, FALSE, FALSE, FALSE)
+Base == {[shared |-> s, k |-> k, refl |-> r] : s \in BOOLEAN, k \in {1, 2}, r \in BOOLEAN}
+One == [shared |-> FALSE, k |-> 1, refl |-> TRUE]
+\* every pool shape in plaintext + TLS on both sides / on one side only / reflection credentials needed, sent, missing, superfluous
+Cfgs == {Plain(c) : c \in Base}
+        \cup {Sec(One, TRUE, TRUE, FALSE, FALSE), Sec([One EXCEPT !.shared = TRUE, !.k = 2], TRUE, TRUE, FALSE, FALSE),
+              Sec(One, TRUE, FALSE, FALSE, FALSE), Sec(One, FALSE, TRUE, FALSE, FALSE),
+              Sec(One, FALSE, FALSE, TRUE, TRUE), Sec(One, FALSE, FALSE, TRUE, FALSE), Sec(One, FALSE, FALSE, FALSE, TRUE),
+              Sec([One EXCEPT !.shared = TRUE], TRUE, TRUE, TRUE, TRUE)}
 Init == \E c \in Cfgs : InitWith(c)
 Spec == Init /\ [][Next]_vars
 
 (* the runs of the conformance driver (vdrive grpcconn) *)
+CONSTANT Full
 R(m, s, k, n, e) == [mode |-> m, shared |-> s, clients |-> k, inst |-> n, entries |-> e,
-                     timeout_ms |-> 0, slow_ms |-> 0, slow_every |-> 0]
-Runs == <<R("conns", FALSE, 0, 1, 8), R("conns", FALSE, 0, 3, 18), R("conns", TRUE, 1, 3, 18), R("conns", TRUE, 2, 3, 18),
-          R("conns", TRUE, 3, 2, 12),
-          R("dead", FALSE, 0, 2, 4), R("dead", TRUE, 2, 2, 4),
-          R("deadtarget", FALSE, 0, 2, 8), R("deadtarget", TRUE, 2, 3, 9),
-          [R("timeout", FALSE, 0, 2, 10) EXCEPT !.timeout_ms = 1000, !.slow_ms = 2500, !.slow_every = 5],
-          [R("timeout", TRUE, 1, 2, 10) EXCEPT !.timeout_ms = 1000, !.slow_ms = 2500, !.slow_every = 5],
-          R("updown", FALSE, 0, 2, 40), R("updown", TRUE, 2, 3, 40)>>
-GenInit == InitWith([shared |-> FALSE, k |-> 1, refl |-> TRUE]) /\ PrintT(<<"VERIF", ToJson([runs |-> Runs])>>)
+                     timeout_ms |-> 0, slow_ms |-> 0, slow_every |-> 0,
+                     kind |-> "grpc", tls |-> FALSE, ttls |-> FALSE, needmd |-> FALSE, rmd |-> FALSE, authority |-> "",
+                     notimeout |-> FALSE, delayed_ms |-> 0, delayed_every |-> 0]
+Scn(r) == [r EXCEPT !.kind = "grpc/scenario"]
+Tls(r, t, tt) == [r EXCEPT !.tls = t, !.ttls = tt]
+SlowR(r, T, late, every) == [r EXCEPT !.timeout_ms = T, !.slow_ms = late, !.slow_every = every]
+Runs1 == <<R("conns", FALSE, 0, 1, 8), R("conns", FALSE, 0, 3, 18), R("conns", TRUE, 1, 3, 18), R("conns", TRUE, 2, 3, 18),
+           R("conns", TRUE, 3, 2, 12),
+           R("dead", FALSE, 0, 2, 4), R("dead", TRUE, 2, 2, 4),
+           R("deadtarget", FALSE, 0, 2, 8), R("deadtarget", TRUE, 2, 3, 9),
+           SlowR(R("timeout", FALSE, 0, 2, 10), 1000, 2500, 5), SlowR(R("timeout", TRUE, 1, 2, 10), 1000, 2500, 5),
+           R("updown", FALSE, 0, 2, 40), R("updown", TRUE, 2, 3, 40)>>
+\* TLS on both sides (own clients / pooled clients), on one side only (the run must not start), reflection credentials needed and
+\* sent (with dial_options.authority), needed and missing (no start), sent without need; more pooled clients than instances;
+\* the gRPC scenario gun: own connections, late answers
+Runs2 == <<Tls(R("conns", FALSE, 0, 2, 8), TRUE, TRUE), Tls(R("conns", TRUE, 2, 3, 9), TRUE, TRUE),
+           Tls(R("conns", FALSE, 0, 2, 4), TRUE, FALSE), Tls(R("conns", TRUE, 1, 2, 4), FALSE, TRUE),
+           [R("conns", FALSE, 0, 2, 8) EXCEPT !.needmd = TRUE, !.rmd = TRUE, !.authority = "verif.authority"],
+           [R("conns", FALSE, 0, 2, 4) EXCEPT !.needmd = TRUE], [R("conns", TRUE, 2, 2, 8) EXCEPT !.rmd = TRUE],
+           R("conns", TRUE, 4, 2, 12),
+           Scn(R("conns", FALSE, 0, 3, 12)), SlowR(Scn(R("timeout", FALSE, 0, 2, 10)), 1000, 2500, 5)>>
+\* thorough: answers late but WITHIN the timeout (T = 2 s: 1 s in time, 5 s late), no timeout configured (the default of 15 s
+\* applies: an answer after 1.2 s is in time), the scenario gun against a dead target / through an outage, TLS + credentials
+Runs3 == <<[SlowR(R("timeout", FALSE, 0, 2, 12), 2000, 5000, 5) EXCEPT !.delayed_ms = 1000, !.delayed_every = 3],
+           [SlowR(Scn(R("timeout", FALSE, 0, 2, 12)), 2000, 5000, 5) EXCEPT !.delayed_ms = 1000, !.delayed_every = 3],
+           [R("conns", FALSE, 0, 1, 4) EXCEPT !.notimeout = TRUE, !.delayed_ms = 1200, !.delayed_every = 2],
+           [Scn(R("conns", FALSE, 0, 1, 4)) EXCEPT !.notimeout = TRUE, !.delayed_ms = 1200, !.delayed_every = 2],
+           Scn(R("deadtarget", FALSE, 0, 2, 8)), Scn(R("updown", FALSE, 0, 2, 40)), Scn(R("dead", FALSE, 0, 2, 4)),
+           [Tls(Scn(R("conns", FALSE, 0, 2, 8)), TRUE, TRUE) EXCEPT !.needmd = TRUE, !.rmd = TRUE],
+           Tls(Scn(R("conns", FALSE, 0, 2, 4)), FALSE, TRUE)>>
+Runs == IF Full THEN Runs1 \o Runs2 \o Runs3 ELSE Runs1 \o Runs2
+GenInit == InitWith(Plain(One)) /\ PrintT(<<"VERIF", ToJson([runs |-> Runs])>>)
 GenNext == UNCHANGED vars
 =============================================================================
